@@ -36,7 +36,7 @@ def main(argv):
     c.assumes += ["a restart happens between events (after the kernel became quiet), on the same three stores"]
     c.grep_gate()
     tok, binary = S.prepare(c)
-    proved = tok and c.prove("C02") and c.prove("C02Inv")
+    proved = tok and c.prove("C02") and c.prove("C02Inv") and c.prove("C02Once")
     if binary is None:
         c.finish()
     n, steps = (48, 40) if c.tier == "quick" else (400, 60)
